@@ -37,10 +37,10 @@ type Blocking struct {
 	LT    *LockTable
 	PL    *PkgLocks
 	scope map[*ssa.Function]bool
-	prim  map[*ssa.Function][]BlockOp            // direct ops per function
-	calls map[*ssa.Function][]callEdge           // module-internal call edges
-	summ  map[*ssa.Function]map[string]BlockOp   // transitive ops by ID (one witness each)
-	cgOut map[*ssa.Function][]*callgraph.Edge    // VTA out-edges
+	prim  map[*ssa.Function][]BlockOp          // direct ops per function
+	calls map[*ssa.Function][]callEdge         // module-internal call edges
+	summ  map[*ssa.Function]map[string]BlockOp // transitive ops by ID (one witness each)
+	cgOut map[*ssa.Function][]*callgraph.Edge  // VTA out-edges
 	Notes []string
 }
 
